@@ -5,6 +5,8 @@
    evaluation of the same formula is tied bit-for-bit by the correspondence
    (Model/Precision.v roundF), not proved. Statements only. *)
 From PV Require Import Model.Precision Model.Segment Proofs.PrecisionP.
+From Coq Require Reals.
+From PV Require Proofs.RoundFloatP.
 
 Theorem C13_nearest_within_half_unit : forall n num den, 0 < den ->
   2 * Z.abs (round_units n num den * den - num * 10 ^ n) <= den.
@@ -36,6 +38,27 @@ Theorem C13_truncation_refuted :
   (exists k, round_units_old 0 k 1 <> k).
 Proof. exact truncation_refuted. Qed.
 
+(* ---- binary64 level ----
+   [RoundFloatP.rfloat rnd P x] is the code's expression  math.floor(x / P + 0.5) * P  with each operation (division,
+   addition of 0.5, conversion of the floored Python int to float, product) rounded by [rnd]; [rnd64] is IEEE-754
+   binary64 rounding to nearest-even (Flocq's [round radix2 (FLT_exp (-1074) 53) ZnearestE] on the reals, gradual
+   underflow included), u64 = 2^-53, eta64 = 2^-1075.  For every real x (in particular every double) and every grid
+   unit P > 0 (in particular the double nearest 10^-n) the stored bound is within half a unit of the requested value,
+   up to a few units of rounding noise.  Relies on the standard library's real-number axioms (printed below). *)
+Module Binary64.
+Import Reals. Local Open Scope R_scope.
+Theorem C13_binary64_within_half_unit : forall P x : R, 0 < P ->
+  Rabs (RoundFloatP.rfloat RoundFloatP.rnd64 P x - x)
+  <= P / 2 + 8 * RoundFloatP.u64 * (Rabs x + P) + 8 * RoundFloatP.eta64 * (P + 1).
+Proof. exact RoundFloatP.binary64_precision_rounding. Qed.
+(* the same for any rounding with relative error u <= 1/8 and absolute error eta (the shape of the argument) *)
+Theorem C13_rounded_arithmetic_within_half_unit : forall (u eta : R) (rnd : R -> R) (P x : R),
+  0 <= u -> 0 <= eta -> u <= / 8 -> 0 < P ->
+  (forall y, exists e t, Rabs e <= u /\ Rabs t <= eta /\ rnd y = y * (1 + e) + t) ->
+  Rabs (RoundFloatP.rfloat rnd P x - x) <= P / 2 + 8 * u * (Rabs x + P) + 8 * eta * (P + 1).
+Proof. intros u eta rnd P x Hu He Hu8 HP Hr. now apply (RoundFloatP.rfloat_within_half_unit_simple u eta). Qed.
+End Binary64.
+
 Example C13_nonvacuous :
   round_units 1 (-3) 10 = -3 /\ round_units 0 (-5) 2 = -2 /\ round_units 2 1 3 = 33 /\ 0 < 10 ^ 6.
 Proof. vm_compute. repeat split. Qed.
@@ -48,3 +71,5 @@ Print Assumptions C13_operations_keep_grid_bounds.
 Print Assumptions C13_monotone.
 Print Assumptions C13_equal_roundings_give_equal_hashes.
 Print Assumptions C13_truncation_refuted.
+Print Assumptions Binary64.C13_binary64_within_half_unit.
+Print Assumptions Binary64.C13_rounded_arithmetic_within_half_unit.
